@@ -5,8 +5,9 @@
 From Coq Require Import List String ZArith Bool.
 Import ListNotations.
 From Anthem Require Import Base.ISet Syntax.Fol Syntax.Asp Sem.Domain Sem.Sat Model.Problem Model.Outline Model.Strong
-  Model.External Proofs.SemBase Proofs.DecomposeOk Proofs.StrongOk Proofs.ExternalOk Proofs.AssemblyOk
-  Proofs.RenameOk Proofs.C19Ext Proofs.C02Ok.
+  Model.External Model.Tightness Model.PrivRec Model.Completion Model.ExternalFull
+  Proofs.SemBase Proofs.DecomposeOk Proofs.StrongOk Proofs.ExternalOk Proofs.AssemblyOk
+  Proofs.RenameOk Proofs.C19Ext Proofs.C02Ok Proofs.C02Witness.
 Open Scope string_scope.
 Open Scope list_scope.
 
@@ -105,6 +106,58 @@ Theorem C02_partial :
           ext_stable t FI (reindex (task_mapping t) M) (et_program t) /\ ~ ext_stable t FI M L)).
 Proof. exact C02_partial_proof. Qed.
 Print Assumptions C02_partial.
+
+(* ---------------- non-vacuity of C02_assembly and C02_partial (audit A1) ----------------
+   Every premise is discharged on one accepted task, computed in the model with the real components
+   (Proofs/C02Witness.v):  t6 =  specification  q :- in.  out :- q.   program  out :- not in.
+   input: in/0.  output: out/0.  (q/0 private; universal direction).  M6 = {in, q, out}.
+   The left-hand side holds (the forward problem is refuted by M6) and the right-hand side is
+   obtained through the theorem. *)
+Example C02_assembly_nonvacuous : forall FI : fint,
+  et_specification t6 = inl L6 /\ et_proof_outline t6 = [] /\
+  external_decompose is_tight has_private_recursion tau_star_total completion (simp_classic_total full_fuel) t6 = Ok ([], pbs6) /\
+  task_left tau_star_total completion (simp_classic_total full_fuel) t6 L6 = Some lft6 /\
+  task_right tau_star_total completion (simp_classic_total full_fuel) t6 = Some rgt6 /\
+  (forall vt, task_validated tau_star_total completion (simp_classic_total full_fuel) t6 = Some vt -> validated_no_clash vt) /\
+  tvalid FI M6 (map (fun a => rp_formula (task_placeholders t6) (an_formula a)) (filter is_assumption (ug_formulas (et_user_guide t6)))) /\
+  tvalid FI M6 (assumptions_of lft6) /\ tvalid FI M6 (assumptions_of rgt6) /\
+  List.length pbs6 = 2 /\ List.length (assumptions_of lft6) = 1 /\
+  refutes_some FI M6 pbs6 /\
+  ((dir_forward (et_direction t6) = true /\ tvalid FI M6 (specs_of lft6) /\ ~ tvalid FI M6 (specs_of rgt6)) \/
+   (dir_backward (et_direction t6) = true /\ tvalid FI M6 (specs_of rgt6) /\ ~ tvalid FI M6 (specs_of lft6))).
+Proof.
+  intros FI.
+  split; [reflexivity|]. split; [reflexivity|]. split; [exact t6_total|]. split; [exact t6_left|].
+  split; [exact t6_right|]. split; [exact t6_no_clash|]. split; [exact (t6_ug FI M6)|].
+  split; [exact (t6_assumptions_left FI)|]. split; [exact (t6_assumptions_right FI M6)|].
+  split; [vm_compute; reflexivity|]. split; [vm_compute; reflexivity|].
+  split; [exact (t6_refuted FI)|exact (t6_assembly_rhs FI)].
+Qed.
+
+Example C02_partial_nonvacuous : forall FI : fint,
+  (forall t P th FI M,
+      theory_translate tau_star_total completion (simp_classic_total full_fuel) t (task_placeholders t) P = Some th ->
+      (tvalid FI M th <-> es_full t FI M P)) /\
+  et_specification t6 = inl L6 /\ et_proof_outline t6 = [] /\
+  external_decompose is_tight has_private_recursion tau_star_total completion (simp_classic_total full_fuel) t6 = Ok ([], pbs6) /\
+  task_left tau_star_total completion (simp_classic_total full_fuel) t6 L6 = Some lft6 /\
+  task_right tau_star_total completion (simp_classic_total full_fuel) t6 = Some rgt6 /\
+  (forall vt, task_validated tau_star_total completion (simp_classic_total full_fuel) t6 = Some vt -> validated_no_clash vt) /\
+  tvalid FI M6 (map (fun a => rp_formula (task_placeholders t6) (an_formula a)) (filter is_assumption (ug_formulas (et_user_guide t6)))) /\
+  tvalid FI M6 (assumptions_of lft6) /\ tvalid FI M6 (assumptions_of rgt6) /\
+  refutes_some FI M6 pbs6 /\
+  ((dir_forward (et_direction t6) = true /\
+    es_full t6 FI M6 L6 /\ ~ es_full t6 FI (reindex (task_mapping t6) M6) (et_program t6)) \/
+   (dir_backward (et_direction t6) = true /\
+    es_full t6 FI (reindex (task_mapping t6) M6) (et_program t6) /\ ~ es_full t6 FI M6 L6)).
+Proof.
+  intros FI.
+  split; [exact es_full_meaning|].
+  split; [reflexivity|]. split; [reflexivity|]. split; [exact t6_total|]. split; [exact t6_left|].
+  split; [exact t6_right|]. split; [exact t6_no_clash|]. split; [exact (t6_ug FI M6)|].
+  split; [exact (t6_assumptions_left FI)|]. split; [exact (t6_assumptions_right FI M6)|].
+  split; [exact (t6_refuted FI)|exact (t6_partial_rhs FI)].
+Qed.
 
 (* witness of the known class F9: renaming q/1 by the extension "p" in a vocabulary that already
    contains q_p/1 is not injective *)
